@@ -125,7 +125,7 @@ def apply_strat_alloc(ex, st, recv, args, exact=False):
     parent = h.get(recv, "parent")
     k = cidx_f(recv.term)
     isroot = parent.term == recv.term
-    cash = ("_capital", "_last_fee", "_net_flows")
+    cash = ("_capital", "_last_fee")
     for key in update_modkeys():
         base = key.split("#")[0]
         if base in cash:
@@ -144,13 +144,23 @@ def apply_strat_transact(ex, st, recv, args, exact=False):
     return apply_strat_alloc(ex, st, recv, args, exact)
 
 
+def _apply_rebalance_proxy(ex, st, recv, args, exact=False):
+    from .algos_rebalance import apply_rebalance
+
+    return apply_rebalance(ex, st, recv, args, exact)
+
+
+def verify_strat_allocate_proxy(ex, contract, timeout_ms=30000):
+    return verify_strat_allocate(ex, contract, timeout_ms=timeout_ms)
+
+
 def contracts():
     return [
         (RelationalContract("bt.core.StrategyBase._create_child_if_needed", [("child", "str")], apply_create_child, self_cls="StrategyBase", note="ensures the named child exists; a newly attached lazy child is a flat security with weight 0"), None),
         (RelationalContract("bt.core.StrategyBase.close", [("child", "str"), ("update", "bool")], apply_close, self_cls="StrategyBase", note="modifies the child's subtree, own cash/fees, root.stale"), None),
-        (RelationalContract("bt.core.StrategyBase.allocate", [("amount", "float"), ("child", "any"), ("update", "bool")], apply_strat_alloc, self_cls="StrategyBase", note="modifies own subtree and the parent's cash"), None),
+        (RelationalContract("bt.core.StrategyBase.allocate", [("amount", "float"), ("child", "optstr"), ("update", "bool")], apply_strat_alloc, self_cls="StrategyBase", note="parent debited / self credited once (flow only for self), each child receives amount x weight with update=False; see verify_strat_allocate"), verify_strat_allocate_proxy),
         (RelationalContract("bt.core.StrategyBase.transact", [("q", "float"), ("child", "any"), ("update", "bool")], apply_strat_transact, self_cls="StrategyBase", note="modifies own subtree and the parent's cash"), None),
-        (RelationalContract("bt.core.StrategyBase.rebalance", [("weight", "float"), ("child", "str"), ("base", "float"), ("update", "bool")], None, self_cls="StrategyBase", note="see verify_rebalance"), verify_rebalance),
+        (RelationalContract("bt.core.StrategyBase.rebalance", [("weight", "float"), ("child", "str"), ("base", "float"), ("update", "bool")], _apply_rebalance_proxy, self_cls="StrategyBase", note="see verify_rebalance"), verify_rebalance),
     ]
 
 
@@ -352,3 +362,119 @@ def verify_flatten(ex, contract, timeout_ms=30000):
 
 
 LOOPS = {("bt.core.StrategyBase.flatten", 0): FLAT_FI, ("bt.core.StrategyBase.flatten", 1): FLAT_MV}
+
+
+# ------------------------------------------------------------------ StrategyBase.allocate
+def _salloc_inv(ctx):
+    st, E = ctx.cur, ctx.entry.heap
+    self = ctx.entry.locals["self"]
+    amount = ctx.entry.locals["amount"]
+    out = []
+    rt = st.heap.get(self, "root")
+    out.append(("stale-flag-untouched-by-children", st.heap.get(rt, "stale") == E.get(rt, "stale")))
+    out.append(("own-flows-untouched-by-children", value_same(st.heap.get(self, "_net_flows"), E.get(self, "_net_flows"))))
+    if ctx.phase == "step":
+        ih = ctx.i - 1
+        c = E.list_at(self, "_childrenv", ih)
+        new = [x for x in st.log[len(ctx.head.log):] if len(x) == 4 and x[0].endswith(".allocate")]
+        out.append(("each-child-allocated-exactly-once", len(new) == 1))
+        if len(new) == 1:
+            q, recv, a, H = new[0]
+            out.append(("child-receives-amount-times-its-weight", And(recv.term == c.term, value_same(a[0], amount * E.get(c, "_weight")))))
+            upd = a[1] if q.endswith("SecurityBase.allocate") else a[2]
+            out.append(("children-allocated-without-update", upd is False or (upd is not True and Not(upd))))
+    return out
+
+
+def _salloc_havoc(ctx):
+    self = ctx.entry.locals["self"]
+
+    def sub(i):
+        i = Num.lift(i)
+        return lambda x: And(slot_f(self.term, x) >= 0, slot_f(self.term, x) < i.r)
+
+    def sub_or_self(i):
+        i = Num.lift(i)
+        return lambda x: Or(And(slot_f(self.term, x) >= 0, slot_f(self.term, x) < i.r), x == self.term)
+
+    out = []
+    for k in update_modkeys():
+        base = k.split("#")[0]
+        out.append((k, sub_or_self if base in ("_capital", "_last_fee") else sub))
+    return out
+
+
+SALLOC_LOOP = LoopSpec(_salloc_inv, havoc_heap=_salloc_havoc, on_iter=_flat_on_iter, name="push allocation down by child weight")
+LOOPS[("bt.core.StrategyBase.allocate", 0)] = SALLOC_LOOP
+
+
+def verify_strat_allocate(ex, contract, timeout_ms=30000):
+    from pyvc.verify import FuncReport, discharge, entry_state
+
+    fr = FuncReport(contract.qualname)
+    try:
+        fi = ex.prog.func(contract.qualname)
+        fr.source_hash = fi.source_hash()
+        st0, self, args = entry_state(ex, contract)
+        amount, child, update = args
+        E = st0.heap
+        for f in self_facts(E, self):
+            st0.assume(_zb(f))
+        st0.assume(_zb(Not(isnan(amount))))
+        from pyvc.heap import Opt
+
+        parent = E.get(self, "parent")
+        for f in ("_capital", "_net_flows", "_last_fee"):
+            st0.assume(_zb(And(Not(isnan(E.get(self, f))), Not(isnan(E.get(parent, f))))))
+        if isinstance(child, Opt):
+            st0.assume(_zb(Implies(Not(child.isnone), named_child_facts(E, self, child.val))))
+        E = st0.heap.copy()
+        st0.ghost["schemas"] = [children_schema(E, self), ForallInt(0, E.list_len(self, "_childrenv"), lambda j: _I_child(E, self, j), name="ji")]
+        t0 = time.time()
+        exits = ex.run_function(fi, st0.fork(), self, args)
+        fr.symexec_s = time.time() - t0
+        fr.paths = len(exits)
+        obligs = []
+        rt = E.get(self, "root")
+        isroot = parent.term == self.term
+        for xi, (st, oc) in enumerate(exits):
+            kind = oc.kind if oc.kind != "raise" else "raise:" + oc.exc
+            fr.exits[kind] = fr.exits.get(kind, 0) + 1
+            obligs.extend(st.obligs)
+            if oc.kind == "raise":
+                continue
+            F = st.heap
+            calls = [c for c in st.log if len(c) == 4 and c[0].endswith(".allocate")]
+
+            def ob(cid, goal, props):
+                obligs.append(Oblig("StrategyBase.allocate/%s" % cid, st.pc, goal, "post", props))
+
+            nochild = child.isnone if isinstance(child, Opt) else (child is NONEV)
+            # directed at a named child: exactly one allocate(amount) on that child, nothing booked on self
+            if isinstance(child, Opt):
+                ob("named-child:single-allocate-of-the-amount", Implies(Not(nochild), And(len(calls) == 1, (calls[0][1].term == named_child(calls[0][3], self, child.val).term) if calls else False, value_same(calls[0][2][0], amount) if calls else False)), ("C06", "C02"))
+            # to self: the parent is debited and self credited once; a flow for self, never a flow for a parent strategy
+            ob("self:credited-as-flow", Implies(nochild, value_same(F.get(self, "_net_flows"), E.get(self, "_net_flows") + z3.If(isroot, 0, 1) * amount) if False else value_same(F.get(self, "_net_flows"), ite(isroot, E.get(self, "_net_flows"), E.get(self, "_net_flows") + amount))), ("C02", "C03", "C07"))
+            ob("parent:debited-once-not-a-flow", Implies(And(nochild, Not(isroot)), And(value_same(F.get(parent, "_capital"), E.get(parent, "_capital") - amount), value_same(F.get(parent, "_net_flows"), E.get(parent, "_net_flows")), value_same(F.get(parent, "_last_fee"), E.get(parent, "_last_fee")))), ("C02", "C07"))
+            upd = update if not isinstance(update, bool) else z3.BoolVal(update)
+            ob("stale-iff-update", Implies(nochild, F.get(rt, "stale") == Or(E.get(rt, "stale"), upd)), ("C08",))
+            x = z3.Const(dsl.fresh_name("xfr"), dsl.Ref)
+            outside = And(x != self.term, slot_f(self.term, x) == -1, x != rt.term, x != parent.term)
+            from pyvc.heap import map_same
+
+            for key in sorted(F.maps.keys()):
+                a, b = F.maps[key], E.ensure(key)
+                if map_same(a, b) or key.startswith("children") or key.startswith("dct#"):
+                    continue
+                obligs.append(Oblig("StrategyBase.allocate/frame:%s" % key, st.pc, Implies(And(nochild, outside), a.select(x) == b.select(x)), "post", ("C08", "C11", "C07")))
+        s = z3.Solver()
+        for p in st0.pc:
+            s.add(p)
+        fr.canary = str(s.check())
+        discharge(obligs, timeout_ms, fr, contract.qualname)
+        fr.stats = dict(feas_queries=ex.stats.feas_queries, feas_s=round(ex.stats.feas_time, 3), inlined=sorted(ex.stats.inlined), contracts_used=sorted(ex.stats.contracts_used))
+    except Undecided as e:
+        fr.undecided = str(e)
+    except Exception as e:
+        fr.undecided = "ENGINE-ERROR: %s\n%s" % (e, traceback.format_exc())
+    return fr
